@@ -292,3 +292,80 @@ Example C08_example_deadlines_pending :
   map (fun t => (t_name t, t_kill t, t_pend t)) (filter (fun t => negb (t_kill t)) (s_insts (a_s a)))
   = [(N_EXPIRE, false, Some 946684800302); (N_IDLE, false, Some 946684800062)].
 Proof. vm_compute. repeat split. Qed.
+
+(* ---------------------------------------------------------------------------------------------------------------
+   The lazy creation of the per-context scheduler (MV.C08.InitModel / InitProofs). Every registration of a timer is
+   "ensure the scheduler ; load the field ; register in the object it denotes", and it is not confined to the actor's
+   goroutine: ActorOf arms ":expire:" on the CHILD's context from the spawner's goroutine after OnLaunch has been posted.
+   [init_state d tags]: one caller per task of [tags], all started, under initialisation discipline [d]; [reach]: every
+   interleaving of their atomic steps (sync.Once statement by statement: done.Load, m.Lock, done.Load, create, store,
+   done.Store, m.Unlock); [made] = scheduler objects ever created, [fld] = ctx.scheduler, [regs] = (object, task) of every
+   registration, [orphaned s k t] = task t was registered in object k and the field does not hold k. Tie T3
+   (harness/translate/c08init) extracts the discipline of the tree under test on every run; the search oracle is
+   harness/cmd/c08init (real ActorSystem, real time, GOMAXPROCS >= 4). *)
+From MV Require Import Lib.Sched C08.InitModel C08.InitProofs.
+
+(* Under the once-guard, for any number of concurrent callers and every interleaving: at most one scheduler object is ever
+   created (exactly one as soon as anything is registered or the field is set), nobody dereferences a nil field, and every
+   task registered so far sits in the object the context holds — StopTask, re-registration of the name, Clear on restart
+   and Close on termination, which all go through the field, reach it: no task is orphaned. *)
+Theorem C08_scheduler_created_once_no_task_orphaned : forall tags st, reach (init_state DOnce tags) st ->
+  nilderef (fst st) = false /\ 0 <= made (fst st) <= 1 /\
+  (forall k t, In (k, t) (regs (fst st)) -> fld (fst st) = Some k) /\
+  (forall k t, ~ orphaned (fst st) k t) /\
+  (regs (fst st) <> [] -> made (fst st) = 1) /\
+  (forall k, fld (fst st) = Some k -> k = 0 /\ made (fst st) = 1).
+Proof. exact once_sound. Qed.
+Print Assumptions C08_scheduler_created_once_no_task_orphaned.
+
+(* ... and the field, once stored, never changes: the object a task was registered in stays THE scheduler of the context. *)
+Theorem C08_scheduler_field_stable : forall tags st st' k, reach (init_state DOnce tags) st -> reach st st' ->
+  fld (fst st) = Some k -> fld (fst st') = Some k.
+Proof. exact once_field_stable. Qed.
+Print Assumptions C08_scheduler_field_stable.
+
+(* When every caller has returned, every task has been registered exactly as often as it was asked for (each caller once),
+   all in object 0, which the field holds. *)
+Theorem C08_scheduler_every_registration_lands : forall tags st, reach (init_state DOnce tags) st -> all_done (snd st) ->
+  (forall t, cnt t (regs (fst st)) = cnt_tags t tags) /\
+  (tags <> [] -> fld (fst st) = Some 0 /\ made (fst st) = 1).
+Proof. exact once_all_registered. Qed.
+Print Assumptions C08_scheduler_every_registration_lands.
+
+(* "Later callers wait" is not "wait for ever": while some caller has not returned, some caller can take a step. *)
+Theorem C08_scheduler_init_no_deadlock : forall tags st j l, reach (init_state DOnce tags) st ->
+  nth_error (snd st) j = Some (Some l) -> exists i st' e, gstep st i tt = Some (st', e).
+Proof. exact once_progress. Qed.
+Print Assumptions C08_scheduler_init_no_deadlock.
+
+(* Without the guard (`if ctx.scheduler == nil { ctx.scheduler = NewScheduler() }`, "the context is confined to the actor's
+   goroutine") the two goroutines of a spawn — the owner registering "tick" from OnLaunch, the spawner arming ":expire:" —
+   have a schedule after which everything has returned, TWO scheduler objects exist, the context holds the second, and
+   "tick" is registered in the first: orphaned, for ever (nothing can run any more). *)
+Theorem C08_scheduler_lazy_init_orphans_task_refuted :
+  exists st, reach (init_state DLazy spawn_tags) st /\ all_done (snd st) /\
+    made (fst st) = 2 /\ fld (fst st) = Some 1 /\ nilderef (fst st) = false /\
+    regs (fst st) = [(1, T_EXPIRE); (0, T_TICK)] /\ orphaned (fst st) 0 T_TICK /\
+    forall st', reach st st' -> st' = st.
+Proof. exact lazy_orphans_task. Qed.
+Print Assumptions C08_scheduler_lazy_init_orphans_task_refuted.
+
+(* Tie T3: a source whose extracted facts satisfy [source_ok] — every assignment of the scheduler field creates the scheduler
+   inside the function handed to Do of one sync.Once field of the context, that field is used for nothing else, every
+   registration is preceded by the ensuring call and every other use is ensured or nil-checked — IS the once machine. The
+   generated Instance.v proves [source_ok] of the facts of the tree under test by vm_compute on every run. *)
+Theorem C08_scheduler_init_at_source : forall ws once_fields misuse us, source_ok ws once_fields misuse us = true ->
+  forall tags st, reach (init_src ws once_fields misuse tags) st ->
+  nilderef (fst st) = false /\ 0 <= made (fst st) <= 1 /\
+  (forall k t, In (k, t) (regs (fst st)) -> fld (fst st) = Some k) /\
+  (forall k t, ~ orphaned (fst st) k t) /\
+  (regs (fst st) <> [] -> made (fst st) = 1) /\
+  (forall k, fld (fst st) = Some k -> k = 0 /\ made (fst st) = 1).
+Proof. exact at_source. Qed.
+Print Assumptions C08_scheduler_init_at_source.
+
+(* the facts the model was written from are accepted; those of the unguarded variant are not *)
+Example C08_example_init_source_facts :
+  source_ok model_writes model_once_fields [] model_users = true /\
+  source_discipline lazy_writes [] [] = Some DLazy /\ source_ok lazy_writes [] [] model_users = false.
+Proof. vm_compute. repeat split. Qed.
